@@ -330,6 +330,37 @@ fn gen_history(rng: &mut Rng, blocks: &[Vec<u8>]) -> Vec<Cmd> {
     cmds
 }
 
+/// Directed histories: two stops in one pass — the first inside a block, the second in the pause after it —
+/// and a redundant "play" on a deck that runs after a resume; positions random.
+fn gen_pattern(rng: &mut Rng, blocks: &[Vec<u8>]) -> Vec<Cmd> {
+    let p0 = pulses_of(&blocks[0]);
+    let inside = match rng.below(3) {
+        0 => rng.range(1, 200),                 // pilot
+        1 => p0 - 1 - rng.below(16 * blocks[0].len() as u64), // data bits
+        _ => rng.range(1, p0 - 2),
+    };
+    let mut cmds = vec![Cmd::Play, Cmd::Run { kind: 5, seed: 4000, n: 2 * inside + rng.below(2) }];
+    if rng.chance(1, 3) {
+        cmds.push(Cmd::Run { kind: rng.below(5) as u8, seed: rng.next() as u32, n: rng.range(1, 300) });
+    }
+    cmds.push(Cmd::Stop);
+    cmds.push(Cmd::Play);
+    if rng.bool() {
+        // on to the pause after the block, stop there, play again
+        cmds.push(Cmd::Run { kind: 5, seed: 4000, n: 2 * (p0 - inside) + 6 + rng.below(700) });
+        cmds.push(Cmd::Stop);
+        cmds.push(Cmd::Play);
+    } else {
+        // a second "play" while the deck runs
+        cmds.push(Cmd::Run { kind: 5, seed: 4000, n: 2 * rng.range(1, p0 - inside + 40) });
+        cmds.push(Cmd::Play);
+    }
+    cmds.push(Cmd::Run { kind: 5, seed: 60000, n: rng.range(1, 70) });
+    cmds.push(Cmd::Run { kind: 5, seed: 4000, n: rng.range(2, 4000) });
+    cmds.push(Cmd::Run { kind: 0, seed: rng.next() as u32, n: rng.range(100, 800) });
+    cmds
+}
+
 fn gen_blocks(rng: &mut Rng) -> Vec<Vec<u8>> {
     let n = rng.range(1, 3);
     (0..n)
@@ -401,7 +432,7 @@ pub fn run(o: &Opts) -> Report {
     rep.rule = "component level: random histories of 3-12 commands over {play, stop, rewind, coarse advance (calls of 4000 or 60000 T to \
 reach any point of the waveform: early pilot, arbitrary pulse, end of first block/pause, around and past the end of the tape), fine advance \
 (up to 1500 calls of 1..16 T in five schedule families)} on tapes of 1-3 blocks (1, 2-5 and 129-139 bytes, occasionally flag 0x00), always \
-ending in play + advance; every EAR edge time and the stopped state compared exactly with the Lean model and with the cassette-deck spec. \
+ending in play + advance (one history in five is directed: a stop inside a block, play, then a stop in the pause after the block or a second play while running); every EAR edge time and the stopped state compared exactly with the Lean model and with the cassette-deck spec. \
 System level: the real ROM loading blocks after scripted Emulator::play_tape/stop_tape/rewind_tape (stop;play, stop;stop;play;play, rewind \
 while playing, stop;rewind;play), compared with LD-BYTES on the block sequence a deck delivers. distinct/non-trivial = distinct (sequence of \
 deck commands, deck stopped at the end) of histories in which at least one edge was produced after the first stop/rewind"
@@ -452,8 +483,17 @@ deck commands, deck stopped at the end) of histories in which at least one edge 
     let n = o.n(2000, 200_000);
     for idx in 0..n {
         let mut r = rng.fork();
-        let blocks = gen_blocks(&mut r);
-        let cmds = gen_history(&mut r, &blocks);
+        let mut blocks = gen_blocks(&mut r);
+        let cmds = if idx % 5 == 4 {
+            if blocks.len() < 2 {
+                let mut b = vec![r.u8() | 1];
+                b.extend(r.bytes(3));
+                blocks.push(b);
+            }
+            gen_pattern(&mut r, &blocks)
+        } else {
+            gen_history(&mut r, &blocks)
+        };
         let c = Case { tape: c11::encode(&blocks), chunk: *r.pick(&[0usize, 0, 3]), cmds };
         let shape: Vec<&str> = c
             .cmds
